@@ -123,6 +123,12 @@ class PropertyRun:
     def finish(self, results, functions, notes, bounded, crashes, errors):
         known = load_known()
         os.makedirs(EVIDENCE_DIR, exist_ok=True)
+        import glob
+        for old in glob.glob(os.path.join(REPLAY_DIR, f'{self.prop}-*.json')):
+            try:
+                os.unlink(old)
+            except OSError:
+                pass
         n_ob = len(results)
         discharged = [r for r in results if r['status'] == 'discharged']
         refuted = [r for r in results if r['status'] == 'refuted']
